@@ -122,6 +122,21 @@ func (rr *renderer) eol(f *fileBuf) {
 	f.line++
 }
 
+// genCommentText: the text of a one-line '#' comment.  Anything but a line break is allowed in it - further '#'
+// characters, annotation signs, parentheses, keywords; it does not begin with '#' ("###" opens a block comment).
+func genCommentText(r Rnd) string {
+	if !chance(r, 1, 3) {
+		return genWords(r, 2)
+	}
+	n := 1 + r.Intn(3)
+	var ss []string
+	for i := 0; i < n; i++ {
+		ss = append(ss, pick(r, []string{"issue #1", "and #2", "a # b # c", "C#", "## not a block", "x ### y", "// x", "/* y */", "(", ")", "GET /a", "200", "\"q\"", "50%", "alpha"}))
+	}
+	t := strings.Join(ss, " ")
+	return strings.TrimLeft(t, "#")
+}
+
 func quoteParam(s string) string {
 	return `"` + strings.ReplaceAll(strings.ReplaceAll(s, `\`, `\\`), `"`, `\"`) + `"`
 }
@@ -137,7 +152,7 @@ func (rr *renderer) trivia(f *fileBuf, ind string, id int, where string) {
 		case 0:
 			// blank line
 		case 1:
-			f.sb.WriteString(ind + "# " + genWords(x, 2))
+			f.sb.WriteString(ind + "# " + genCommentText(x))
 		case 2:
 			f.sb.WriteString(ind + "###" + l.EOL)
 			f.line++
@@ -256,7 +271,7 @@ func (rr *renderer) renderList(f *fileBuf, dirs []*Dir, depth int) {
 				rr.out.Features["line-annotation"]++
 				if l.PEolComment > 0 && chance(lr, 1, 6) {
 					// a comment ends the annotation, with or without a blank before the '#'
-					f.sb.WriteString(pick(lr, []string{" # ", "# ", " #"}) + genWords(lr, 2))
+					f.sb.WriteString(pick(lr, []string{" # ", "# ", " #"}) + genCommentText(lr))
 					rr.out.Features["comment-after-annotation"]++
 				}
 			}
@@ -340,7 +355,7 @@ func (rr *renderer) renderList(f *fileBuf, dirs []*Dir, depth int) {
 						// blanks and a comment after the last line of a schema / enum body (a blank before '#' is required)
 						lr := &lrnd{l: l, id: d.ID, what: "bodytail"}
 						if l.ch(d.ID, "bodycomment", l.PEolComment) {
-							f.sb.WriteString(pick(lr, []string{" ", "  ", "\t"}) + "# " + genWords(lr, 2))
+							f.sb.WriteString(pick(lr, []string{" ", "  ", "\t"}) + "# " + genCommentText(lr))
 							rr.out.Features["comment-after-body"]++
 						} else if l.ch(d.ID, "bodytrail", l.PTrail) {
 							f.sb.WriteString(pick(lr, []string{" ", "  ", "\t"}))
